@@ -8,7 +8,7 @@ from . import common as C, pkgfam as P
 
 BASES = [
     dict(id="b0", pkg="one", comp="none", n=4, extra=0, seed=13),
-    dict(id="b1", pkg="one", comp="zstd", n=5, extra=0, seed=14),
+    dict(id="b1", pkg="one", comp="zstd", n=5, extra=0, seed=14, vs="indexed"),       # strings in an indexed value store
     dict(id="b2", pkg="two", comp="lz4", n=4, extra=1, seed=13, idgap=5),     # the extra pack has id 7: pack ids are not contiguous
     dict(id="b5", pkg="no", comp="none", n=3, extra=0, seed=17, reduced=True),    # every pack in its own file
     # 1100 extra tiny contents: the content-info table of the content pack is a block of more than 4 KiB (mmap path of the file source)
@@ -315,6 +315,8 @@ def structure_diff(pristine, damaged):
 
 def model_agrees(rust, model):
     """relaxed tie between the implementation's dump and the model's dump of the same damaged bytes"""
+    # index free data is shown by the independent decoder only (the library's reader has no accessor for it)
+    model = [" ".join(t for t in l.split(" ") if not t.startswith("free=")) if l.startswith(("index ", "alt index ")) else l for l in model]
     if not rust:
         return True                                   # the process died: C06's subject
     alt = [l[4:] for l in model if l.startswith("alt ")]
